@@ -36,6 +36,7 @@ class Query:
         self.replace = list(replace); self.loop_contracts = loop_contracts; self.backend = backend
         self.replay = replay; self.bounded = bounded; self.functions = list(functions)
         self.object_bits = object_bits; self.tier = tier; self.extra_cbmc = list(extra_cbmc); self.note = note
+        self.input_stop = 'spec_step' if kind == 'harness' else None   # harness inputs are complete when the spec is first called
 
 def _limits():
     import resource
@@ -145,7 +146,7 @@ def run_query(q, pid, tier):
             ob = {'id': r.get('property', ''), 'desc': r.get('description', ''), 'status': r.get('status', ''),
                   'function': sl.get('function', ''), 'file': os.path.basename(sl.get('file', '') or ''), 'line': sl.get('line', '')}
             if ob['status'] != 'SUCCESS' and 'trace' in r:
-                ob['inputs'] = extract_inputs(r['trace'], q.entry, (q.replay or {}).get('target'))
+                ob['inputs'] = extract_inputs(r['trace'], q.entry, q.input_stop)
                 ob['trace_tail'] = trace_tail(r['trace'])
             obs.append(ob)
         res['obligations'] = obs
@@ -227,7 +228,7 @@ def extract_inputs(trace, entry, target=None):
     tree = {}
     for s in trace:
         fn = s.get('sourceLocation', {}).get('function')
-        if target and s.get('stepType') == 'function-call' and (s.get('function', {}).get('displayName', '') or '').startswith(target):
+        if target and s.get('stepType') == 'function-call' and target in ((s.get('function', {}).get('displayName', '') or '') + (s.get('function', {}).get('identifier', '') or '')):
             break
         if s.get('stepType') != 'assignment': continue
         lhs = s.get('lhs', '')
